@@ -666,6 +666,14 @@ void progObserver(runtime::RuntimeEvaluator* ev, void* stmt, uint64_t, bool) {
             pr->currentOp = k;
             return;
         }
+        if (pr->interp.expectError && pr->interp.nonFiniteAngle) {
+            const qh::Op& o = pr->plan->ops[(size_t)k - 1];
+            bool fin = true;
+            for (auto& v : ob.state) if (!std::isfinite(v.real()) || !std::isfinite(v.imag())) fin = false;
+            pr->findings.push_back({"non_finite_amplitude", "C03", "op " + std::to_string(k - 1) + " (" + qh::gateName(o.gate) + " by the computed angle " + qh::angleText(o) + " via " + qh::handleExpr(o.h) + ") was executed and the program went on; state finite afterwards: " + (fin ? "yes" : "no")});
+            pr->desync = true;
+            return;
+        }
         if (pr->interp.expectError) {
             const qh::Op& o = pr->plan->ops[(size_t)k - 1];
             pr->findings.push_back({"measured_qubit_operated_on", "C06", "op " + std::to_string(k - 1) + " (" + qh::kindName(o.kind) + " via " + qh::handleExpr(o.h) + ", path " + std::to_string(o.path) + ") touched a measured qubit (or used one qubit twice in cx) and the program went on"});
@@ -1078,6 +1086,7 @@ qh::GenOptions genOptionsFor(const std::string& property, sim::Rng& knob) {
     if (property == "C02") { go.boundaryDrawProb = 0.3; }
     go.tracked = knob.chance(0.3);
     if (property == "C04") go.aliasProb = knob.chance(0.3) ? 0.12 : 0.0;
+    if (property == "C03" || property == "C05" || property == "C06") go.nonFiniteAngleProb = knob.chance(0.3) ? 0.01 : 0.0;
     if (property == "C03") { go.aliasProb = knob.chance(0.1) ? 0.12 : 0.0; go.cycleProb = knob.chance(0.4) ? 0.1 : 0.0; go.portProb = knob.chance(0.25) ? 0.1 : 0.0; }
     if (property == "C05" || property == "C04") go.cycleProb = knob.chance(0.15) ? 0.08 : 0.0;
     if (property == "C05" || property == "C06") go.sameQubitCxProb = 0.02;
@@ -1212,6 +1221,7 @@ void runOne(const sim::Options& opt, uint64_t run, sim::RunReport& rep) {
         if (f.owner != property) rep.count("prog.foreign_findings");
     for (auto& o : plan.ops) rep.count(std::string("op.") + qh::kindName(o.kind));
     for (auto& o : plan.ops) if (o.kind == qh::GATE && o.loop >= 2) rep.count("op.gate_in_for_loop");
+    for (auto& o : plan.ops) if ((o.kind == qh::GATE || o.kind == qh::IFGATE) && o.gate >= 4 && qh::angleComputed(o)) rep.count("op.rotation_by_non_finite_angle");
     if (cls == "harness_rejected") {
         rep.count("harness.rejected_program");
         fprintf(stderr, "rejected (run %llu): %s\n", (unsigned long long)run, detail.c_str());
